@@ -97,6 +97,8 @@ package cluster_info
 //@   ensures [entriesKept] forall k in queues :: queues[k] != nil && old(k in queues) && queues[k] == old(queues[k])
 //@   ensures [noSelfParent] forall k in queues :: !selfParent(queues, k)
 //@   ensures [noTwoCycle] forall k in queues :: !twoCycle(queues, k)
+//@   ensures [rooted] old(ancOK(queues)) ==> (forall k in queues :: exists n int :: rootAt(queues, k, n))
+//@   ensures [parentsPresent] old(ancOK(queues)) ==> (forall k in queues :: qanc(k, 0) == k && (queues[k].ParentQueue == "" || queues[k].ParentQueue in queues))
 //@ end
 
 // ---- parent chains (acyclicity) -----------------------------------------------------------------
@@ -112,6 +114,9 @@ package cluster_info
 // the two smallest parent cycles (first-order): a queue that is its own parent / two queues that are each other's parent
 //@ define selfParent(qs map[common_info.QueueID]*queue_info.QueueInfo, k common_info.QueueID) bool = k != "" && k in qs && qs[k].ParentQueue == k
 //@ define twoCycle(qs map[common_info.QueueID]*queue_info.QueueInfo, k common_info.QueueID) bool = k != "" && k in qs && qs[k].ParentQueue != "" && qs[k].ParentQueue in qs && qs[qs[k].ParentQueue].ParentQueue == k
+
+// consequence of ancOK (every suffix of a rooted chain is a rooted chain), proved from it by cleanQueueCycles [lemmasHold]
+//@ define ancLemmas(qs map[common_info.QueueID]*queue_info.QueueInfo) bool = forall k common_info.QueueID, n int, m int :: rootAt(qs, k, n) && 0 <= m && m <= n ==> rootAt(qs, qanc(k, m), n - m)
 
 // C10 (fix 3fa1605): true iff the parent chain of queueID reaches a top-level queue within
 // len(queues) steps without leaving the map. Terminates on every map (bounded by len(queues)+1).
@@ -141,22 +146,33 @@ package cluster_info
 // top-level queue through remaining queues (so the parent relation restricted to the map is acyclic and
 // rank(k) = number of steps to the root strictly decreases along ParentQueue); only queues that do
 // not reach a root within len(queues) steps are removed.
+//@ declare rch(k common_info.QueueID) bool
 //@ func cleanQueueCycles
 //@   props C10
+//@   assume forall k common_info.QueueID :: rch(k) == reach(queues, k)
+//@   note the `assume` is DEFINITIONAL: rch is a spec-only symbol naming reach(queues, .) of the entry state, so that the loop invariants stay quantifier-light; it does not occur in the ensures.
 //@   requires nonNil(queues)
 //@   modifies queues[*]
 //@   loop 1
 //@     invariant forall i int :: 0 <= i && i < len(unrooted) ==> unrooted[i] in queues
 //@     invariant forall k in visited :: (!selfParent(queues, k) && !twoCycle(queues, k)) || listed(unrooted, len(unrooted), k)
+//@     invariant ancOK(queues) ==> (forall i int :: 0 <= i && i < len(unrooted) ==> !reach(queues, unrooted[i]))
+//@     invariant ancOK(queues) ==> (forall k in visited :: rch(k) || listed(unrooted, len(unrooted), k))
 //@   loop 2
 //@     invariant 0 - 1 <= rangeindex && rangeindex < len(unrooted)
 //@     invariant forall k in queues :: old(k in queues) && queues[k] == old(queues[k])
 //@     invariant forall k common_info.QueueID :: old(k in queues) ==> (!old(selfParent(queues, k)) && !old(twoCycle(queues, k))) || listed(unrooted, len(unrooted), k)
 //@     invariant forall i int :: 0 <= i && i <= rangeindex ==> !(unrooted[i] in queues)
+//@     invariant old(ancOK(queues)) ==> (forall i int, k common_info.QueueID :: 0 <= i && i < len(unrooted) && unrooted[i] == k ==> !old(reach(queues, k)))
+//@     invariant old(ancOK(queues)) ==> (forall k common_info.QueueID :: old(k in queues) ==> rch(k) || listed(unrooted, len(unrooted), k))
+//@     invariant forall k common_info.QueueID :: old(k in queues) && !(k in queues) ==> listed(unrooted, rangeindex + 1, k)
 //@     decreases len(unrooted) - rangeindex
 //@   ensures [onlyDeletes] forall k in queues :: old(k in queues) && queues[k] == old(queues[k])
 //@   ensures [noSelfParent] forall k in queues :: !selfParent(queues, k)
 //@   ensures [noTwoCycle] forall k in queues :: !twoCycle(queues, k)
+//@   ensures [onlyRootedRemain] old(ancOK(queues)) ==> (forall k in queues :: old(reach(queues, k)))
+//@   ensures [lemmasHold] old(ancOK(queues)) ==> old(ancLemmas(queues))
+//@   ensures [rootedRemain] old(ancOK(queues)) ==> (forall k common_info.QueueID :: old(k in queues) && old(reach(queues, k)) ==> k in queues)
 //@ end
 
 // The queue map handed to UpdateQueueHierarchy: every value is a non-nil QueueInfo stored under its
